@@ -118,6 +118,7 @@ type Exec struct {
 	noConvert map[*ssa.If]bool
 	regionOK  map[*ssa.If]bool
 	pure      int
+	crossDone int
 }
 
 func (e *Exec) abort(format string, a ...interface{}) abortSignal {
@@ -563,7 +564,7 @@ func (e *Exec) runState(st *State) {
 				}
 			case choiceSignal:
 				// distribute or fork locally
-				if e.spawn != nil && len(st.choices) < e.cfg.SplitDepth {
+				if e.spawn != nil && len(st.choices) < e.splitDepth() && st.depth == 0 {
 					for k := 0; k < s.n; k++ {
 						e.spawn(append(append([]int(nil), st.choices...), k))
 					}
@@ -1116,3 +1117,10 @@ func (e *Exec) doGo(st *State, f *Frame, x *ssa.Go) {
 }
 
 var _ = token.NoPos
+
+func (e *Exec) splitDepth() int {
+	if e.ob.SplitDepth > 0 {
+		return e.ob.SplitDepth
+	}
+	return e.cfg.SplitDepth
+}
